@@ -16,6 +16,7 @@ package choquet
 // getWeightForCriteriaUnion sorts the list it is given in place and looks the joined key up (panics when it is missing)
 //@ func getWeightForCriteriaUnion
 //@   property C03 C20 C07 C18 C01 C04 C15 C09 C16 C19
+//@   indexsafe
 //@   assigns *commonWeightCriteria
 //@   panics_iff [no_capacity_for_that_union] !(keyOf(*commonWeightCriteria) in *weights)
 //@   ensures [capacity_of_the_listed_criteria] result == capL(*commonWeightCriteria, *weights) && *commonWeightCriteria == old(*commonWeightCriteria)
@@ -25,6 +26,7 @@ package choquet
 // with 0 before the first group: the property's formula, group by group (the summation over groups is the loop itself).
 //@ func computeTotalWeight
 //@   property C03 C01 C04 C07 C15 C18 C09 C16 C19 C20
+//@   indexsafe
 //@   loop 1 invariant [ctx] 0 <= i && i <= totalElements && totalElements == len(*sortedCriteria) && unchanged(*sortedCriteria)
 //@   loop 1 invariant [starts_from_zero] i == 0 ==> previousWeight == 0.0 && result == 0.0
 //@   loop 1 invariant [next_group_differs] 0 < i && i < totalElements ==> abs(previousWeight - (*sortedCriteria)[i].weight) > 0.00001
@@ -56,53 +58,64 @@ package choquet
 
 //@ func choquetIntegral
 //@   property C03 C01 C04 C07 C15 C18 C20
+//@   indexsafe
 //@   ensures [single_value] result != nil && typeis(result.Evaluation, model.EvaluationSingleValue) && result.Alternative == *alternative
 //@   returnhint [every_value_of_the_alternative_takes_part] len(*sortedCriteria) == len(alternative.Criteria)
 //@             && forall k int :: 0 <= k && k < len(*sortedCriteria) ==> pairOf((*sortedCriteria)[k], *alternative)
 //@ func (*ChoquetIntegralPreferenceFunc).Evaluate$1
 //@   property C03 C15 C07 C18 C01 C04 C20
+//@   indexsafe
 //@   ensures [is_choquet] result != nil && typeis(result.Evaluation, model.EvaluationSingleValue) && result.Alternative == *alternative
 
 // ---- registered names (what a request must say to select this object; what error messages list)
 //@ func (*ChoquetIntegralBiasListener).Identifier
 //@   property C07 C20 C01 C03 C04 C05 C06 C08 C09 C11 C12 C13 C14 C15 C16 C17 C18 C19
+//@   indexsafe
 //@   nopanic
 //@   ensures [name] result == "choquetIntegral"
 
 // ---- registered names (what a request must say to select this object; what error messages list)
 //@ func (*ChoquetIntegralPreferenceFunc).Identifier
 //@   property C03 C20 C01 C04 C05 C06 C07 C08 C09 C11 C12 C13 C14 C15 C16 C17 C18 C19
+//@   indexsafe
 //@   nopanic
 //@   ensures [name] result == "choquetIntegral"
 
 // ---- what the parser rejects (C20, C03): non-gain criteria, a capacity outside [0,1], a missing capacity
 //@ func validateAllCriteriaAreGain
 //@   property C03 C20 C01
+//@   indexsafe
 //@   panics_iff [a_criterion_is_not_gain] exists k int :: 0 <= k && k < len(*criteria) && (*criteria)[k].Type != model.Gain
 //@   loop 1 invariant [gain_so_far] forall k int :: 0 <= k && k < iter ==> (*criteria)[k].Type == model.Gain
 //@ func validateWeightValue
 //@   property C03 C20 C01
+//@   indexsafe
 //@   panics_iff [capacity_outside_the_unit_interval] v < 0.0 || v > 1.0
 //@ func getWeightForCombinedCriterion
 //@   property C03 C20 C07 C18 C01 C04 C15 C09 C16 C19
+//@   indexsafe
 //@   panics_iff [capacity_missing] !(*weightKey in *weights)
 //@   ensures [that_capacity] result == (*weights)[*weightKey]
 // remapWeights: the request's capacities under normalised keys - every capacity is one the request gives, two spellings of one key are
 // rejected (that none is dropped is not stated: the loop runs over a map)
 //@ func containedCriteria
 //@   property C03 C20 C01
+//@   indexsafe
 //@   ensures [a_new_list] fresh(result)
 //@ func remapWeights
 //@   property C03 C20 C01
+//@   indexsafe
 //@   ensures [every_capacity_is_one_the_request_gives] result != nil && fresh(result) && forall q string :: q in *result ==> exists k string :: k in *weights && (*result)[q] == (*weights)[k]
 //@   loop 1 invariant [ctx] fresh(result) && result != nil
 //@   loop 1 invariant [given_so_far] forall q string :: q in result ==> exists k string :: k in *weights && result[q] == (*weights)[k]
 // validateAllWeightsAvailable: only looks capacities up (in lists of its own)
 //@ func validateAllWeightsAvailable
 //@   property C03 C20 C01
+//@   indexsafe
 //@   ensures [parameters_untouched] *weights == old(*weights)
 //@ func prepareWeights
 //@   property C03 C20 C01
+//@   indexsafe
 //@   ensures [capacities_in_the_unit_interval] result != nil && fresh(result) && forall q string :: q in *result ==> 0.0 <= (*result)[q] && (*result)[q] <= 1.0
 //@   ensures [every_capacity_is_one_the_request_gives] forall q string :: q in *result ==> exists k string :: k in *weights && (*result)[q] == (*weights)[k]
 //@   loop 1 invariant [ctx] fresh(resultWeights) && resultWeights != nil
@@ -110,11 +123,13 @@ package choquet
 //@   loop 1 invariant [given_so_far] forall q string :: q in resultWeights ==> exists k string :: k in *weights && resultWeights[q] == (*weights)[k]
 //@ func parse
 //@   property C03 C20 C01
+//@   indexsafe
 //@   ensures [validated] result != nil && (forall k int :: 0 <= k && k < len(*criteria) ==> (*criteria)[k].Type == model.Gain)
 //@             && forall q string :: q in *result ==> 0.0 <= (*result)[q] && (*result)[q] <= 1.0
 //@   ensures [every_capacity_is_one_the_request_gives] forall q string :: q in *result ==> exists k string :: k in *weights && (*result)[q] == (*weights)[k]
 //@ func (*ChoquetIntegralPreferenceFunc).ParseParams
 //@   property C03 C20 C01
+//@   indexsafe
 //@   ensures [validated_capacities_over_the_declared_criteria] typeis(result, choquetParams) && result.(choquetParams).weights != nil && *result.(choquetParams).criteria == dm.Criteria
 //@             && (forall k int :: 0 <= k && k < len(dm.Criteria) ==> dm.Criteria[k].Type == model.Gain)
 //@             && forall q string :: q in *result.(choquetParams).weights ==> 0.0 <= (*result.(choquetParams).weights)[q] && (*result.(choquetParams).weights)[q] <= 1.0
@@ -129,12 +144,14 @@ package choquet
 //@   ensures [new_lists] result != nil && fresh(result) && fresh(*result) && forall i int :: 0 <= i && i < len(*result) ==> fresh((*result)[i])
 //@ func criterionKey
 //@   property C07 C18 C03 C20 C01 C04 C15 C09 C16 C19
+//@   indexsafe
 //@   nopanic
 //@   assigns *criteria
 //@   ensures [same_list_object] *criteria == old(*criteria)
 //@   assumes [the_key_of_that_list] result == keyOf(*criteria)
 //@ func (*ChoquetIntegralBiasListener).OnCriterionAdded
 //@   property C07 C18 C03 C01 C09 C19 C20
+//@   indexsafe
 //@   fnparam generator ensures 0.0 <= result && result < 1.0
 //@   requires [parameters] typeis(params, choquetParams) && params.(choquetParams).weights != nil && params.(choquetParams).criteria != nil
 //@   requires [the_new_criterion_has_no_capacity_yet] !(criterion.Id in *params.(choquetParams).weights)
@@ -145,6 +162,7 @@ package choquet
 //@   loop 1 invariant [only_new_so_far] forall q string :: q in newWeights ==> !(q in *oldWeights)
 //@ func (*ChoquetIntegralBiasListener).Merge
 //@   property C07 C18 C03 C01 C09 C19 C20
+//@   indexsafe
 //@   requires [parameters] typeis(params, choquetParams) && params.(choquetParams).weights != nil && params.(choquetParams).criteria != nil
 //@   requires [addition] typeis(addition, choquetParams) && addition.(choquetParams).weights != nil && addition.(choquetParams).criteria != nil
 //@   panics_iff [a_capacity_is_given_twice] exists q string :: q in *params.(choquetParams).weights && q in *addition.(choquetParams).weights
@@ -156,6 +174,7 @@ package choquet
 // the method as a whole: one entry per considered alternative, ordered by value then id
 //@ func (*ChoquetIntegralPreferenceFunc).Evaluate
 //@   property C03 C01 C04 C15 C07 C18 C20
+//@   indexsafe
 //@   requires [distinct] forall i int, j int :: 0 <= i && i < j && j < len(dmp.ConsideredAlternatives) ==> dmp.ConsideredAlternatives[i].Id != dmp.ConsideredAlternatives[j].Id
 //@   requires [params] typeis(dmp.MethodParameters, choquetParams) && dmp.MethodParameters.(choquetParams).weights != nil
 //@   ensures [one_entry_each] result != nil && len(*result) == len(dmp.ConsideredAlternatives)
@@ -164,12 +183,14 @@ package choquet
 
 //@ func (*ChoquetIntegralPreferenceFunc).MethodParameters
 //@   property C20 C03
+//@   indexsafe
 //@   nopanic
 //@   ensures [schema_of_the_weights_parameter] typeis(result, model.WeightType)
 
 // omission: the capacities of the subsets of the kept criteria, each as the parameters gave it; the kept criteria become the list
 //@ func (*ChoquetIntegralBiasListener).OnCriteriaRemoved
 //@   property C07 C15 C03 C01 C09 C20
+//@   indexsafe
 //@   requires [parameters] typeis(params, choquetParams) && params.(choquetParams).weights != nil
 //@   ensures [capacities_restricted_to_the_kept_criteria_unchanged] typeis(result, choquetParams) && result.(choquetParams).weights != nil && result.(choquetParams).criteria == leftCriteria
 //@             && forall q string :: q in *result.(choquetParams).weights ==> q in *params.(choquetParams).weights && (*result.(choquetParams).weights)[q] == (*params.(choquetParams).weights)[q]
@@ -181,6 +202,7 @@ package choquet
 // stated: it needs the components computeTotalWeight reports, which are not under contract.)
 //@ func decomposeWeights
 //@   property C15 C07 C03 C01 C09 C16 C18 C19 C20
+//@   indexsafe
 //@   requires [parameters] typeis(params.MethodParameters, choquetParams) && params.MethodParameters.(choquetParams).weights != nil
 //@   ensures [an_importance_for_every_declared_criterion_and_for_nothing_else] result != nil && fresh(result)
 //@             && forall q string :: q in *result <==> exists k int :: 0 <= k && k < len(params.Criteria) && params.Criteria[k].Id == q
@@ -191,6 +213,7 @@ package choquet
 //@   loop 4 invariant [keys] fresh(weights) && weights != nil && forall q string :: q in weights <==> exists k int :: 0 <= k && k < len(params.Criteria) && params.Criteria[k].Id == q
 //@ func (*ChoquetIntegralBiasListener).RankCriteriaAscending
 //@   property C15 C07 C03 C01 C09 C16 C18 C19 C20
+//@   indexsafe
 //@   requires [distinct] model.distinctCriteria(params.Criteria)
 //@   requires [parameters] typeis(params.MethodParameters, choquetParams) && params.MethodParameters.(choquetParams).weights != nil
 //@   ensures [every_criterion_once_ascending] result != nil && fresh(result) && fresh(*result) && len(*result) == len(params.Criteria)
